@@ -2,7 +2,7 @@
 evaluator used as the specification oracle for numeric expressions. Every random choice comes from the rng passed in."""
 from fractions import Fraction
 
-BLANKS = [" ", "  ", "\t", " \t ", "   "]
+BLANKS = [" ", "  ", "\t", " \t ", "   ", " ", "\u00a0", "\u2003"]
 UNIT_WORDS = ["m", "km", "cm", "mm", "s", "ms", "kg", "g", "N", "kN", "J", "kJ", "hr", "min", "ft", "in", "mi", "W", "kW",
               "Pa", "l", "dl", "K", "A", "V", "C", "Hz", "mol", "B", "kB", "yd", "lb", "oz", "gal", "acre", "btu", "eV", "au"]
 FACTS = ["pi", "c", "speed of light", "population finland", "population world", "mass of earth", "e"]
